@@ -31,6 +31,7 @@ from ..engine import (
 )
 from ..report import Report
 from ._chains import PARAMRES, extract_chain
+from ..pat import find, find1, match, name_of
 
 NODES = "semantiva/pipeline/nodes/nodes.py"
 PAYP = "semantiva/pipeline/payload_processors.py"
@@ -68,8 +69,12 @@ def run(repo: Repo, R: Report) -> None:
         R.check(ok, r_res, NODES, qn, "return resolve_runtime_value(name, self.processor.__class__, self.processor_config, context)", "a node resolves parameters by something other than the single-source resolver on its own configuration and the run context", f.lineno)
     # parameter dict = fetch for every processing parameter name
     gpp = repo.func(NODES, "_DataNode._get_processor_parameters")
-    src = ast.unparse(gpp)
-    ok = "self.processor.get_processing_parameter_names()" in src and "self._fetch_parameter_value(name, context)" in src and not any(isinstance(n, (ast.If, ast.Continue, ast.Break, ast.Try)) for n in ast.walk(gpp))
+    ctxp = gpp.args.args[1].arg
+    lp = find1(gpp, f"for _n_ in _P_:\n    _D_[_n_] = self._fetch_parameter_value(_n_, {ctxp})")
+    ok = lp is not None and any(ast.unparse(v) == "self.processor.get_processing_parameter_names()" for v in ([lp[1]["_P_"]] if not isinstance(lp[1]["_P_"], ast.Name) else assigned_value(gpp, lp[1]["_P_"].id))) and not any(isinstance(n, (ast.If, ast.Continue, ast.Break, ast.Try)) for n in ast.walk(gpp))
+    if lp is None:
+        dc = find1(gpp, f"{{_n_: self._fetch_parameter_value(_n_, {ctxp}) for _n_ in _P_}}")
+        ok = dc is not None and "get_processing_parameter_names()" in ast.unparse(gpp)
     R.check(ok, r_res, NODES, "_DataNode._get_processor_parameters", "parameters[name] = _fetch_parameter_value(name, context) for every processing parameter", "some processing parameters bypass (or are skipped by) the resolver", gpp.lineno)
     # overrides that run the processor obtain kwargs from the resolver
     for qn, f in [(q, n) for q, n in nmod.defs.items() if isinstance(n, FuncNode) and n.name == "_process_single_item_with_context"]:
@@ -262,7 +267,8 @@ def run(repo: Repo, R: Report) -> None:
             ok = ok and all(isinstance(x, ast.List) and not x.elts or "get_created_keys()" in ast.unparse(x) for x in ckd if x is not None)
             ok = ok and all(isinstance(x, ast.List) and not x.elts or "get_suppressed_keys()" in ast.unparse(x) for x in skd if x is not None)
     R.check(ok, r_keys, NODES, "_ContextProcessorNode._process_single_item_with_context", "operate_context(context_observer=_ValidatingContextObserver(created keys, suppressed keys))", "a context processor runs with an observer that does not restrict it to its declared created / suppressed keys", cpn.lineno)
-    bound = any(isinstance(n, ast.Assign) and dotted_name(n.targets[0]) and dotted_name(n.targets[0]).endswith(".observer_context") and dotted_name(n.value) == "context" for n in walk_no_nested(cpn))
+    ctx_locals = {t.id for n in walk_no_nested(cpn) if isinstance(n, ast.Assign) and ast.unparse(n.value).endswith(".context") for t in n.targets if isinstance(t, ast.Name)}
+    bound = any(isinstance(n, ast.Assign) and dotted_name(n.targets[0]) and dotted_name(n.targets[0]).endswith(".observer_context") and dotted_name(n.value) in ctx_locals and not dotted_name(n.targets[0]).startswith("self.") for n in walk_no_nested(cpn))
     R.check(bound, r_keys, NODES, "_ContextProcessorNode._process_single_item_with_context", "validating_observer.observer_context = context", "the observer is not bound to the run's context", cpn.lineno)
     op = repo.func(CPROC, "ContextProcessor.operate_context")
     trys = [n for n in walk_no_nested(op) if isinstance(n, ast.Try) and n.finalbody]
@@ -278,21 +284,25 @@ def run(repo: Repo, R: Report) -> None:
     if len(loops) != 1:
         raise AnalysisError("execute(): node loop not found")
     lp = loops[0]
-    ok = isinstance(lp.iter, ast.Call) and call_attr(lp.iter) == "enumerate" and len(lp.iter.args) == 1 and dotted_name(lp.iter.args[0]) == "nodes" and not lp.iter.keywords
+    NODES_VAR = next((dotted_name(n.targets[0].elts[0]) for n in walk_no_nested(ex) if isinstance(n, ast.Assign) and isinstance(n.targets[0], ast.Tuple) and isinstance(n.value, ast.Call) and call_attr(n.value) == "_instantiate_nodes"), "__missing__")
+    ok = isinstance(lp.iter, ast.Call) and call_attr(lp.iter) == "enumerate" and len(lp.iter.args) == 1 and dotted_name(lp.iter.args[0]) == NODES_VAR and not lp.iter.keywords
     R.check(ok, r_seq, ORCH, "SemantivaOrchestrator.execute", norm(lp), "nodes are not visited in list order exactly once", lp.lineno)
     nd = assigned_value(ex, "nodes")
     ok = True
     for n in walk_no_nested(ex):
-        if isinstance(n, ast.Assign) and isinstance(n.targets[0], ast.Tuple) and any(dotted_name(e) == "nodes" for e in n.targets[0].elts):
+        if isinstance(n, ast.Assign) and isinstance(n.targets[0], ast.Tuple) and any(dotted_name(e) == NODES_VAR for e in n.targets[0].elts):
             ok = isinstance(n.value, ast.Call) and call_attr(n.value) == "_instantiate_nodes"
     R.check(ok, r_seq, ORCH, "SemantivaOrchestrator.execute", "nodes, node_defs = self._instantiate_nodes(resolved_spec, logger)", "the node list is not the instantiated spec in order", ex.lineno)
     nc = next((n for n in ast.walk(lp) if isinstance(n, FuncNode) and any(call_attr(c) == "process" for c in calls_in(n))), None)
-    ok = nc is not None and any(isinstance(c, ast.Call) and call_attr(c) == "process" and dotted_name(c.func.value) == lp.target.elts[1].id and c.args and ast.unparse(c.args[0]) == "Payload(data, context)" for c in ast.walk(nc))
+    payload_p = next((a.arg for a in ex.args.args if a.arg == "payload"), "payload")
+    DATA = next((t.id for n in walk_no_nested(ex) if isinstance(n, ast.Assign) and ast.unparse(n.value) == f"{payload_p}.data" for t in n.targets if isinstance(t, ast.Name)), "__missing__")
+    CONTEXT = next((t.id for n in walk_no_nested(ex) if isinstance(n, ast.Assign) and ast.unparse(n.value) == f"{payload_p}.context" for t in n.targets if isinstance(t, ast.Name)), "__missing__")
+    ok = nc is not None and any(isinstance(c, ast.Call) and call_attr(c) == "process" and dotted_name(c.func.value) == lp.target.elts[1].id and c.args and ast.unparse(c.args[0]) == f"Payload({DATA}, {CONTEXT})" for c in ast.walk(nc))
     R.check(ok, r_seq, ORCH, "SemantivaOrchestrator.execute", "node.process(Payload(data, context))", "a node is not run on the current data/context pair", lp.lineno)
     g = CFG(ex, may_raise=lambda p: set())
     sub = next(n for n in g.nodes if n.ast is not None and n.kind == "stmt" and any(call_attr(c) == "_submit_and_wait" for c in calls_in(n.ast)))
     heads = g.nodes_for(lp)
-    upd = [n for n in g.nodes if n.ast is not None and isinstance(n.ast, ast.Assign) and isinstance(n.ast.targets[0], ast.Tuple) and [dotted_name(e) for e in n.ast.targets[0].elts] == ["data", "context"]]
+    upd = [n for n in g.nodes if n.ast is not None and isinstance(n.ast, ast.Assign) and isinstance(n.ast.targets[0], ast.Tuple) and [dotted_name(e) for e in n.ast.targets[0].elts] == [DATA, CONTEXT]]
     ok = False
     if upd:
         rhs = upd[0].ast.value
